@@ -695,6 +695,12 @@ func (db *DB) searchAll(o Object, field, operator string, value interface{}, con
 	fp := fieldPath(field)
 	searchType := search.valueTypeString()
 
+	// a search value of the wrong type is an error whatever the collection
+	// contains, as it is when the field is indexed
+	if fd, ok := s.Fields[field]; ok && fd.castable() && fd.cast() != searchType {
+		return &Search{db: db, err: fmt.Errorf("%w, cannot cast %T(%v) to %s", ErrCasting, search.Value, search.Value, fd.cast())}
+	}
+
 	for obj, err := iter.next(); err == nil && err != ErrEOI; obj, err = iter.next() {
 		var test *indexedField
 		var value interface{}
